@@ -49,6 +49,8 @@ LayoutSet == {
     [id |-> "two-axes",   axes |-> AxWD(300, 100), masters |-> <<WD(300, 100), WD(700, 100), WD(300, 200)>>],
     [id |-> "frac",       axes |-> AxW(175), masters |-> <<W(125), W(175), W(225)>>],   \* concretised at HALF these values
                                                                                      \* (62.5 / 87.5 / 112.5): fractional positions
+    [id |-> "zero-mid",   axes |-> AxW(0), masters |-> <<W(-100), W(0), W(100)>>],    \* a default of ZERO (slant-like axes)
+    [id |-> "zero-max",   axes |-> AxW(0), masters |-> <<W(-12), W(0)>>],             \* ... that is not the lowest master
     [id |-> "no-default", axes |-> AxW(400), masters |-> <<W(300), W(700)>>] }      \* rejected by config.default
 LayoutSmall == {l \in LayoutSet : l.id \in {"two", "def-max", "inter", "no-default"}}
 
